@@ -368,6 +368,10 @@ func c05FlagsGen(rng *rand.Rand) *metaCase {
 	p := &ra.Program{Lane: "include-flags", Files: ra.Files{Include: map[string]string{}, Exclude: map[string]string{}}}
 	words := g.WordList(3)
 	inc := "##!+ " + core.Pick(rng, "i", "s", "is") + "\n" + strings.Join(words, "\n") + "\n"
+	if core.Chance(rng, 1, 3) {
+		// a "shared flags" file: the flags line and nothing that contributes an entry
+		inc = core.Pick(rng, "", "##! flags shared by several rules\n", "\n") + "##!+ " + core.Pick(rng, "i", "s", "is") + "\n" + core.Pick(rng, "", "##! end\n", "##!> define unused x\n")
+	}
 	if core.Chance(rng, 1, 2) {
 		p.Files.Include["flagged"] = inc
 		p.Main = g.WordList(1)[0] + "\n##!> include flagged\n"
@@ -519,6 +523,21 @@ func c06Gen(rng *rand.Rand) *metaCase {
 		}
 		feats["exclude-file-in-two-contexts"] = true
 	}
+	// entries whose characters in front of the ending also occur in the key: exactly one ending is replaced
+	if core.Chance(rng, 1, 5) {
+		p.Files.Include["endings"] = "glasses\necho@@\naaa\nbanana\nmiss\n"
+		p.Files.Exclude["endx"] = "notlisted\n"
+		main = append(main, core.Pick(rng, "##!> include endings -- es ES @ AT", "##!> include-except endings endx -- a \"\" ss SS", "##!> include endings -- na NA @ [\\s<]"))
+		feats["repeated-ending"] = true
+	}
+	// an exclude file that defines a name the include file defines as well: entries are compared as the include file reads them
+	if core.Chance(rng, 1, 6) {
+		p.Files.Include["owndef"] = "##!> define od INC\n{{od}}one\n{{od}}two\nthree\n"
+		p.Files.Exclude["owndefx"] = "##!> define od EXC\n{{od}}one\n"
+		p.Files.Exclude["owndefy"] = "{{od}}two\n"
+		main = append(main, core.Pick(rng, "##!> include-except owndef owndefx owndefy", "##!> include-except owndef owndefy owndefx"))
+		feats["exclude-file-redefines-name"] = true
+	}
 	// keys that are regular-expression syntax: they are compared as text with the end of an entry
 	if core.Chance(rng, 1, 5) {
 		p.Files.Include["metakeys"] = "select\\s+\nfrom[0-9]\nwhere.*\nplainword\nunion(a)\n"
@@ -548,7 +567,14 @@ func c06Gen(rng *rand.Rand) *metaCase {
 	// an include file with its own prefix/suffix (so its text carries directive lines) and pairs whose keys end those lines
 	if core.Chance(rng, 1, 4) {
 		p.Files.Include["withaffix"] = "##!^ " + core.Pick(rng, `\b`, "pre") + "\n##!$ " + core.Pick(rng, `\b`, "post") + "\nalphax\nbetae\ngamma>\ndelta<\n"
-		main = append(main, "##!> include withaffix -- "+core.Pick(rng, "> GT < LT", "e EE", "< \"\" x yy", "e \"\" > q"))
+		if core.Chance(rng, 1, 2) {
+			main = append(main, "##!> include withaffix -- "+core.Pick(rng, "> GT < LT", "e EE", "< \"\" x yy", "e \"\" > q"))
+		} else {
+			// the same file through include-except: prefix, entries and suffix stay one concatenation
+			p.Files.Exclude["affx"] = core.Pick(rng, "notlisted\n", "betae\n", "alphax\ndelta<\n")
+			main = append(main, "##!> include-except withaffix affx"+core.Pick(rng, "", " -- e EE", " -- > GT"))
+			feats["include-except-of-file-with-affixes"] = true
+		}
 		feats["pairs-versus-directive-lines"] = true
 	}
 	p.Main = strings.Join(main, "\n") + "\n"
@@ -735,6 +761,22 @@ func init() {
 					raTerminators(m.Prog, i)
 					cs = append(cs, m)
 				}
+			}
+			// more than a hundred include lines in one file (nesting is bounded, breadth is not)
+			{
+				p := &ra.Program{Lane: "include-top", Features: []string{"120-sibling-includes"}, Files: ra.Files{Include: map[string]string{}, Exclude: map[string]string{}}}
+				var ls []string
+				for k := 0; k < 120; k++ {
+					n := fmt.Sprintf("sib%03d", k)
+					p.Files.Include[n] = fmt.Sprintf("word%03d\n", k)
+					ls = append(ls, "##!> include "+n)
+				}
+				p.Files.Include["chain3"] = "c3\n##!> include chain2\n"
+				p.Files.Include["chain2"] = "c2\n##!> include chain1\n"
+				p.Files.Include["chain1"] = "c1\n"
+				ls = append(ls, "##!> include chain3")
+				p.Main = strings.Join(ls, "\n") + "\n"
+				cs = append(cs, &metaCase{Prog: p, Kind: "include"})
 			}
 			for _, sc := range ioCases("C05") {
 				cs = append(cs, &metaCase{Kind: "io", IO: sc})
